@@ -111,7 +111,7 @@ fixed_division_by_scalar(lh, t, n) ==
 
 (* math.h:564 ceil *)
 ceil_(v) ==
-   LET result == SAnd(SAdd(v, FMask), NotFMask) IN
+   LET result == SAnd(WAdd(v, FMask), NotFMask) IN                 \* unsigned sum (after "fix: ceil overflowed ...")
    IF ZIsPoison(result) THEN ZPoison
    ELSE IF v \preceq result THEN result ELSE quiet_NaN_result
 (* math.h:574 floor *)
